@@ -3,6 +3,7 @@ import Shuttle.Drive.C01
 import Shuttle.Drive.C02
 import Shuttle.Drive.C03
 import Shuttle.Drive.C05
+import Shuttle.Drive.C08
 import Shuttle.Drive.C10
 import Shuttle.Drive.C12
 import Shuttle.Drive.C13
@@ -18,6 +19,7 @@ def dispatch (line : String) : String :=
   | some (.list [.atom "C02", req]) => Drive.C02.handle req
   | some (.list [.atom "C03", req]) => Drive.C03.handle req
   | some (.list [.atom "C05", req]) => Drive.C05.handle req
+  | some (.list [.atom "C08", req]) => Drive.C08.handle req
   | some (.list [.atom "C10", req]) => Drive.C10.handle req
   | some (.list [.atom "C12", req]) => Drive.C12.handle req
   | some (.list [.atom "C13", req]) => Drive.C13.handle req
